@@ -138,7 +138,7 @@ PROPS = {
               'SSA circuits - deductive proof (Verus/Z3, unit ssacirc) for every circuit whose declared size fits the machine word twice '
               '(2 * sum(input_gates) + |gates| <= usize::MAX; validate() itself adds wires_len() and the input sum, and no inputs of a larger declared '
               'shape exist in memory): validate() returns Ok only if every gate reads earlier wires only, there is an output and every output is a '
-              'wire (valid_spec); wires_len() is the number of wires; under valid_spec and inputs of the declared shape eval never indexes out of '
+              'wire (valid_spec), and conversely returns Ok on every such circuit with a party and 2 * inputs + gates <= MAX_GATES (completeness); wires_len() is the number of wires; under valid_spec and inputs of the declared shape eval never indexes out of '
               'bounds, never unwraps an undefined wire (Verus proves the precondition of every Option::unwrap), never reaches one of its panics, '
               'returns one bit per output, and output k is the value of wire output_gates[k] under the gate semantics (ssa_val). ASSUMED for this: '
               'the contract of Circuit::wires() (sum(input_gates) input wires, then the gates in order). Additionally (bounded, kept as a cross-check '
@@ -160,7 +160,8 @@ PROPS = {
         title='a validated register or SSA circuit can be evaluated safely (proved for all circuits; SSA modulo the assumed contract of Circuit::wires())',
         unverified=['Circuit::wires() (impl Iterator chain of flat_map / map / chain closures): contract assumed, cross-checked by the enumeration only',
                     'SSA circuits with 2 * sum(input_gates) + |gates| > usize::MAX (validate overflows: panics under overflow checks)',
-                    '"validation accepts every compiler / conversion output": checked under C10 (conversion) and by the enumeration only',
+                    '"validation accepts every compiler / conversion output": follows from contracts proved elsewhere - CircuitBuilder::build returns a circuit satisfying ssa_valid when there is an input bit (unit prune, C04), '
+                    'the conversion returns a circuit satisfying accepts_spec (unit convert, C10), and both validate functions are proved complete for these predicates - up to the size limit MAX_GATES and the composition over compile',
                     'Evaluator::run pre-checks of party count and bit counts'],
     ),
     'C03': dict(
